@@ -57,14 +57,14 @@ def strategy(tier, shard):
         period = draw(st.integers(2 if gamma == 1.0 else 1, 6))
         if mode == "phase":
             chain_p = period if draw(st.integers(0, 3)) > 0 else draw(st.integers(2, 4))
-            spec = draw(mdp_specs(max_states=10, min_states=chain_p, allow_pol0=False, chain=f"phase:{chain_p}",
+            spec = draw(mdp_specs(max_states=10, min_states=chain_p, allow_pol0=False, chain=f"phase:{chain_p}", allow_int_v0=True,
                                   structure=False))
             spec["flags"] = spec["flags"] + [f"phase-chain-{chain_p}"]
         elif mode == "hub":
-            spec = draw(mdp_specs(max_states=9, allow_pol0=False, chain="hub"))
+            spec = draw(mdp_specs(max_states=9, allow_pol0=False, chain="hub", allow_int_v0=True))
             spec["flags"] = spec["flags"] + ["hub-chain"]
         else:
-            spec = draw(mdp_specs(max_states=9, allow_pol0=False))
+            spec = draw(mdp_specs(max_states=9, allow_pol0=False, allow_int_v0=True))
         nS, sc = spec["nS"], spec["scale"]
         cfg = dict(solver="pvi", gamma=gamma, period=period, clear=draw(st.booleans()),
                    eps=float(sc * 10.0 ** draw(st.sampled_from([-4, -3, -2, -1, -1, 0, 0, 1]))),
